@@ -190,3 +190,98 @@ Section Step.
     end.
 End Step.
 
+
+(* ---------- offline (--sql, context.as_sql) mode ----------
+   HeadMaintainer._delete_version / _update_version: `if not self.context.as_sql and ... and ret.rowcount != 1: raise`
+   — with as_sql the statement is emitted (literal binds) and the rowcount check is skipped; everything else is the
+   same code.  The generic forms below take the flag; update_to_step_p is the text of update_to_step over the two
+   primitives that read the flag (the online functions above are the instance as_sql = false). *)
+Definition delete_version_g (as_sql:bool) (v:N) (s:hm) : res (hm * list stmt) :=
+  if memN v (heads s) then
+    let n := countN v (rows s) in
+    if as_sql || Nat.eqb n 1 then Ok (mkHM (removeN v (heads s)) (removeN v (rows s)), [Del v n])
+    else Err ECommand
+  else Err EKey.
+Definition update_version_g (as_sql:bool) (f t:N) (s:hm) : res (hm * list stmt) :=
+  if memN t (heads s) then Err EAssert
+  else if memN f (heads s) then
+    let n := countN f (rows s) in
+    if as_sql || Nat.eqb n 1 then Ok (mkHM (t :: removeN f (heads s)) (upd_rows f t (rows s)), [Upd f t n])
+    else Err ECommand
+  else Err EKey.
+
+Section StepP.
+  Variable del : N -> hm -> res (hm * list stmt).
+  Variable upd : N -> N -> hm -> res (hm * list stmt).
+  Variable G : graph.
+  Variable ord : list N -> list N.
+
+  Definition rev_step_p (r:N) (up:bool) (s:hm) : res (hm * list stmt) :=
+    let P := norm_down G r in
+    let H := heads s in
+    if up then
+      if is_nil P || is_nil (interN P H) then insert_version r s
+      else if Nat.ltb 1 (length P) && Nat.ltb 1 (length (interN P H)) then
+        let from := interN P H in
+        then_ (each del (removelast from) s) (upd (last from 0%N) r)
+      else bind (rev_update_version_num G r up H) (fun ft => upd (fst ft) (snd ft) s)
+    else
+      let fallback := bind (rev_update_version_num G r up H) (fun ft => upd (fst ft) (snd ft) s) in
+      if memN r H then
+        if is_nil P then del r s
+        else
+          match unmerge_to_revisions G r H with
+          | Err e => Err e
+          | Ok to0 =>
+            if is_nil to0 then del r s
+            else if Nat.ltb 1 (length P) then
+              let to := ord to0 in
+              then_ (each insert_version (removelast to) s) (upd r (last to 0%N))
+            else fallback
+          end
+      else fallback.
+
+  Definition stamp_step_p (from to : list N) (up bm : bool) (s:hm) : res (hm * list stmt) :=
+    let H := heads s in
+    if negb up && bm then
+      match from with [v] => del v s | _ => Err EAssert end
+    else if up && (bm || negb (subsetN from H)) && negb (subsetN to H) then
+      match to with [v] => insert_version v s | _ => Err EAssert end
+    else if Nat.ltb 1 (length from) then
+      match to with
+      | [] => Err EIndex
+      | t0 :: _ => then_ (each del (removelast from) s) (upd (last from 0%N) t0)
+      end
+    else if Nat.ltb 1 (length to) then
+      match from with
+      | [] => Err EIndex
+      | f0 :: _ => then_ (each insert_version (removelast to) s) (upd f0 (last to 0%N))
+      end
+    else match from, to with
+         | [f], [t] => upd f t s
+         | _, _ => Err EAssert
+         end.
+
+  Definition update_to_step_p (st:step) (s:hm) : res (hm * list stmt) :=
+    match st with
+    | RevStep r up => rev_step_p r up s
+    | StampStep f t up bm => stamp_step_p f t up bm s
+    end.
+
+  Fixpoint run_steps_p (steps : list step) (s:hm) : list obs * option hm :=
+    match steps with
+    | [] => ([], Some s)
+    | st :: rest =>
+      match update_to_step_p st s with
+      | Ok (s', stmts) => let (o, f) := run_steps_p rest s' in (ObsOk (rows s') stmts :: o, f)
+      | Err e => ([ObsErr e], None)
+      end
+    end.
+End StepP.
+
+(* update_to_step / the run_migrations loop with the as_sql flag; offline the HeadMaintainer starts from
+   `starting_rev` and `rows` is the table the emitted script will meet *)
+Definition update_to_step_g (as_sql:bool) := update_to_step_p (delete_version_g as_sql) (update_version_g as_sql).
+Definition run_steps_g (as_sql:bool) := run_steps_p (delete_version_g as_sql) (update_version_g as_sql).
+Definition run_cmd_g (as_sql:bool) (G:graph) (ord:list N -> list N) (steps:list step) (rws:list N) : list obs * option (list N) :=
+  let (o, f) := run_steps_g as_sql G ord steps (start rws) in (o, option_map rows f).
